@@ -185,9 +185,10 @@ func (u *Unit) applyContract(p *Path, x *ssa.Call, callee *ssa.Function, bc *Bou
 			args[i] = args[i].WithT(prm.Type())
 		}
 	}
+	epoch := u.epochFor(p)
 	envFor := func(st, old *State, results []*Term) func(bool) *Env {
 		return func(fromIface bool) *Env {
-			return &Env{cx: u.cx, st: st, old: old, vars: u.v.contractVars(callee, bc.iface, fromIface, args, results)}
+			return &Env{cx: u.cx, st: st, old: old, vars: u.v.contractVars(callee, bc.iface, fromIface, args, results), epoch: epoch}
 		}
 	}
 	pre := p.st.Clone()
@@ -206,7 +207,6 @@ func (u *Unit) applyContract(p *Path, x *ssa.Call, callee *ssa.Function, bc *Bou
 		p.assume(g)
 	}
 	_ = usesTree
-	u.treeStable(p, x, site)
 	eff := u.v.eff.fns[callee]
 	regs, err := u.evalModifies(bc.Modifies, func(fromIface bool) *Env { return envFor(pre, pre, nil)(fromIface) })
 	if err != nil {
@@ -245,7 +245,37 @@ func (u *Unit) callOrdinal(in ssa.Instruction) string {
 	return n
 }
 
-// treeStable: recursive spec functions read the tree as it was at entry; a callee contract that
+// epochFor names the tree snapshot a callee's contract talks about: the entry tree when nothing the
+// recursive spec functions read has changed since entry, otherwise a snapshot of the current state.
+func (u *Unit) epochFor(p *Path) string {
+	changed := false
+	var key strings.Builder
+	for _, cn := range sortedKeys(u.cx.treeReads) {
+		now := p.st.Get(u.cx, cn)
+		if !same(u.entry.Get(u.cx, cn), now) {
+			changed = true
+		}
+		key.WriteString(now.String())
+		key.WriteByte('|')
+	}
+	if !changed {
+		return ""
+	}
+	if u.cx.epochs == nil {
+		u.cx.epochs = map[string]*State{}
+		u.cx.epochKeys = map[string]string{}
+	}
+	k := key.String()
+	if e, ok := u.cx.epochKeys[k]; ok {
+		return e
+	}
+	e := fmt.Sprintf("e%d", len(u.cx.epochs)+1)
+	u.cx.epochKeys[k] = e
+	u.cx.epochs[e] = p.st.Clone()
+	return e
+}
+
+// treeStable (unused): recursive spec functions read the tree as it was at entry; a callee contract that
 // mentions them is only meaningful if the tree is still the same.
 func (u *Unit) treeStable(p *Path, in ssa.Instruction, site string) {
 	for _, cn := range sortedKeys(u.cx.treeReads) {
@@ -284,6 +314,9 @@ func (u *Unit) havocForCall(p *Path, pre *State, eff *Effects, regs map[string]*
 			reg = nil // only fresh objects are initialised
 		}
 		p.assume(u.frameFormula(comp, pre.Get(u.cx, cn), nv, reg, allocBefore, false))
+		if inv := u.refInvariant(cn, nv, p.st.Get(u.cx, "alloc")); inv != nil {
+			p.assume(inv)
+		}
 	}
 }
 
@@ -318,8 +351,9 @@ func (u *Unit) execInvoke(p *Path, x *ssa.Call) {
 		args[i] = args[i].WithT(sig.Params().At(i).Type())
 	}
 	pre := p.st.Clone()
+	epoch := u.epochFor(p)
 	for _, cl := range c.Requires {
-		env := &Env{cx: u.cx, st: p.st, vars: u.v.ifaceInvokeVars(c, recv, args, nil, sig)}
+		env := &Env{cx: u.cx, st: p.st, vars: u.v.ifaceInvokeVars(c, recv, args, nil, sig), epoch: epoch}
 		g, err := env.EvalBool(cl.Expr)
 		if err != nil {
 			u.fail("requires %s of %s: %v", cl.Label, key, err)
@@ -331,7 +365,6 @@ func (u *Unit) execInvoke(p *Path, x *ssa.Call) {
 		u.check(p, o, g)
 		p.assume(g)
 	}
-	u.treeStable(p, x, key)
 	// effects: union over implementations
 	eff := &Effects{W: map[string]bool{}, A: map[string]bool{}}
 	for _, impl := range u.v.eff.impl[key] {
@@ -353,7 +386,7 @@ func (u *Unit) execInvoke(p *Path, x *ssa.Call) {
 		rs = append(rs, u.cx.Fresh("ret_"+cc.Method.Name(), u.v.enc.SortOf(sig.Results().At(i).Type())).WithT(sig.Results().At(i).Type()))
 	}
 	for _, cl := range c.Ensures {
-		env := &Env{cx: u.cx, st: p.st, old: pre, vars: u.v.ifaceInvokeVars(c, recv, args, rs, sig)}
+		env := &Env{cx: u.cx, st: p.st, old: pre, vars: u.v.ifaceInvokeVars(c, recv, args, rs, sig), epoch: epoch}
 		g, err := env.EvalBool(cl.Expr)
 		if err != nil {
 			u.fail("ensures %s of %s: %v", cl.Label, key, err)
